@@ -75,7 +75,7 @@ def check(ctx):
             n_kernels += 1
         ctx.guard("C01.e PARAM-DISPATCH", cls.name, lambda: check_param_validation(ctx, cls, tab), cls.module.relpath)
     ctx.expect_min("C01.a NF-KERNEL", n_kernels, 9)
-    ctx.expect_min("C01.b PREFIX-SUBSCRIPT", len(n_sinks), 16)
+    ctx.expect_min("C01.b PREFIX-SUBSCRIPT", len(n_sinks), 8)
     ctx.stats["sinks"] = len(n_sinks)
 
 
